@@ -1,10 +1,11 @@
 #!/bin/bash
 # Run every seeded change against the quick check of its property, and every reverted "fix:" commit against the check of
 # its property, each in its own scratch worktree (tools/seedrun_wt.sh), P at a time.  Writes seeded/RESULTS.json and
-# updates each meta.json's detected_by.  usage: tools/seed_matrix.sh [P]
+# updates each meta.json's detected_by.  usage: tools/seed_matrix.sh [P]   (FILTER=<egrep pattern on job names> re-runs only those
+# jobs and merges their results into the existing seeded/RESULTS.json)
 cd /verif
 P=${1:-3}
-mkdir -p work/matrix; rm -f work/matrix/*.log
+mkdir -p work/matrix; [ -n "${FILTER:-}" ] || rm -f work/matrix/*.log
 /venv/bin/python - <<'PY' > work/matrix/jobs.txt
 import json, glob, os
 for d in sorted(glob.glob('/verif/seeded/*/')):
@@ -14,10 +15,11 @@ for f in json.load(open('/verif/known_findings.json'))['findings']:
     if f['status'] == 'fixed':
         print('revert:' + f['commit'], 'revert-' + f['id'], f['property'])
 PY
+if [ -n "${FILTER:-}" ]; then grep -E "$FILTER" work/matrix/jobs.txt > work/matrix/jobs.f; mv work/matrix/jobs.f work/matrix/jobs.txt; fi
 cat work/matrix/jobs.txt | xargs -P$P -L1 sh -c 'tools/seedrun_wt.sh $0 $1 $2 > work/matrix/$1.log 2>&1'
 /venv/bin/python - <<'PY'
 import json, os
-res = {}
+res = json.load(open('/verif/seeded/RESULTS.json')) if os.environ.get('FILTER') and os.path.exists('/verif/seeded/RESULTS.json') else {}
 for line in open('/verif/work/matrix/jobs.txt'):
     src, name, prop = line.split()
     out = open('/verif/work/matrix/%s.log' % name).read()
